@@ -234,6 +234,8 @@ Lemma local_ftyp : forall h, local (dec_ftyp h). Proof. unfold dec_ftyp. locd. Q
 Lemma local_free : forall h, local (dec_free h). Proof. unfold dec_free. locd. Qed.
 Lemma local_empty : forall h, local (dec_empty h). Proof. unfold dec_empty. locd. Qed.
 Lemma local_b4 : forall h, local (dec_b4 h). Proof. unfold dec_b4. locd. Qed.
+Lemma local_data : forall h, local (dec_data h). Proof. unfold dec_data. locd. Qed.
+Lemma local_mime : forall h, local (dec_mime h). Proof. unfold dec_mime. locd. Qed.
 Lemma local_mfhd : forall h, local (dec_mfhd h). Proof. unfold dec_mfhd. locd. Qed.
 Lemma local_tfhd : forall h, local (dec_tfhd h). Proof. unfold dec_tfhd. locd. Qed.
 Lemma local_tfdt : forall h, local (dec_tfdt h). Proof. unfold dec_tfdt. locd. Qed.
